@@ -6,9 +6,12 @@
 // "application"), with and without bounds, with and without an OnValueGet function.
 //
 // (A) in-process (inproc.go): recorders on OnValueUpdate and OnValueUpdateFromConn; every value of a hostile
-//     value set is handed to UpdateValueFromConnection on a fresh object (and, in sequences, on a used one).
+//
+//	value set is handed to UpdateValueFromConnection on a fresh object (and, in sequences, on a used one).
+//
 // (B) HTTP (http.go): one real transport whose database holds all subjects; a verified refctl controller W
-//     writes and reads, a verified refctl controller S subscribes; EVENT absence is decided with a fence.
+//
+//	writes and reads, a verified refctl controller S subscribes; EVENT absence is decided with a fence.
 //
 // The oracle is the permission list the application declared (read from the object before the call, as the
 // literal strings "pr", "pw", "ev") and the monitor's own recorders / the bytes parsed by refctl — never hc's
